@@ -24,7 +24,7 @@ ALL = CORE + ['select-sent', 'close', 'fetch', 'status-inbox', 'idle-done', 'exa
 
 
 def fuzz_creds(r):
-    pool = [b'', b'testuser', b'testpass', b'bob', b'root', b'\x00', b'\xff\xfe', b'a' * 300, b'*', b'=', b'"', b'\\', b' ', b'{5}', b'pw', b'\r', b'admin', b'NIL']
+    pool = [b'', b'testuser', b'testpass', b'bob', b'root', b'\x00', b'\xff\xfe', b'a' * 300, b'*', b'=', b'"', b'\\', b' ', b'{5}', b'pw', b'\r', b'admin', b'NIL', b'locked', b'locked', b'\xc2\xad']
     return b''.join(r.choice(pool) for _ in range(r.randint(0, 4)))
 
 
